@@ -2,6 +2,7 @@ package h
 
 import (
 	"cosmossdk.io/math"
+	sdk "github.com/cosmos/cosmos-sdk/types"
 	stakingtypes "github.com/cosmos/cosmos-sdk/x/staking/types"
 
 	"hv/env"
@@ -45,6 +46,20 @@ func H_C11_net() {
 	mod := e.Ak.GetModuleAddress(types.ModuleName)
 	if stray == 1 {
 		e.Bank.Fund(mod, env.BondDenom, nd.IntRange("stray", "1", Pow12))
+	}
+	if nd.Choice("pending", 2) == 1 {
+		// staking rewards of the module's own delegations still pending in x/distribution: they must end
+		// up in the rewards pool, never in the module account (where the end-of-block sweep burns them)
+		a0, _ := e.K.GetAssetByDenom(e.Ctx, Denoms[0])
+		for v := 0; v < 2; v++ {
+			if s.Cur[v] > 0 {
+				// bound (stated): the validator's staked reward weight of asset 0 is positive - with a zero
+				// weight reward settlement divides by zero (the C05/C17 known finding, not C11's subject)
+				vt := AV(e, Vals[v]).TotalTokensWithAsset(a0)
+				nd.Assume(a0.RewardWeight.Mul(vt).QuoInt(a0.TotalTokens).IsPositive())
+				e.Distr.Allocate(mod, Vals[v], sdk.Coins{sdk.Coin{Denom: env.BondDenom, Amount: nd.IntRange("pend_"+string(rune('0'+v)), "1", Pow12)}})
+			}
+		}
 	}
 	_ = e.K.QueueAssetRebalanceEvent(e.Ctx)
 	// supply net of the module's own stake == supply - (bonded pool - native stake of bonded validators):
